@@ -325,6 +325,24 @@ example : GenEigSystem (!![1, -1; -1, 1] : Matrix (Fin 2) (Fin 2) ℚ) (Matrix.d
   · intro i
     fin_cases i <;> simp
 
+
+/-- **The skipped generalised eigenvector is the constant vector whenever the eigenvalue 0 is simple** (connected
+    neighbourhood graph).  `L 1 = 0` (`laplacian_mulVec_one`) and `0` occurs among the eigenvalues only at index 0
+    ⇒ column 0 of `V` is a non-zero constant: the hypothesis `hconst` of `le_solution`. -/
+theorem skipped_eigenvector_is_constant {n : Nat} (hn : 0 < n) (L V : Matrix (Fin n) (Fin n) K) (dg lam : Fin n → K)
+    (h : GenEigSystem L (Matrix.diagonal dg) V lam) (hL1 : L.mulVec (fun _ => (1 : K)) = 0)
+    (hsimple : ∀ j : Fin n, j.1 ≠ 0 → lam j ≠ 0) :
+    ∃ κ : K, κ ≠ 0 ∧ ∀ i, V i ⟨0, hn⟩ = κ := by
+  have hx : L.mulVec (fun _ => (1 : K)) = (0 : K) • (Matrix.diagonal dg).mulVec (fun _ => (1 : K)) := by
+    rw [hL1, zero_smul]
+  have hx0 : (fun _ : Fin n => (1 : K)) ≠ 0 := by
+    intro h0
+    have := congrFun h0 ⟨0, hn⟩
+    simp at this
+  obtain ⟨κ, hκ, hV⟩ := col_of_simple_eigenvalue h (fun _ => (1 : K)) 0 hx hx0 ⟨0, hn⟩
+    (fun j hj => hsimple j (fun hj0 => hj (Fin.ext hj0)))
+  exact ⟨κ, hκ, fun i => by rw [hV i, mul_one]⟩
+
 end Spectral
 
 
